@@ -97,7 +97,10 @@ def render(tokens, rng):
         elif c in ARITH:
             out.append(" %s " % ARITH[c])
         elif c == "NEG":
-            out.append("- " if nxt == "NEG" else "-")
+            # "--" and "-NOT" / "-name" are single words for the lexer under test: a unary minus in front of
+            # another minus or NOT is written apart (in front of a function name: either way)
+            apart = nxt in ("NEG", "NOT") or (nxt == "FUNC" and rng.random() < 0.5)
+            out.append("- " if apart else "-")
         else:
             raise ValueError("unknown token class %r" % (c,))
     return "".join(out)
